@@ -417,8 +417,16 @@ tdigest<T, A> tdigest<T, A>::deserialize(std::istream& is, const A& allocator) {
   const T max = read<T>(is);
   if (!is.good()) throw std::runtime_error("error reading from std::istream");
   check_sizes(k, num_centroids, num_buffered);
-  vector_centroid centroids(num_centroids, centroid(0, 0), allocator);
-  if (num_centroids > 0) read(is, centroids.data(), num_centroids * sizeof(centroid));
+  // the number of centroids has no bound in terms of k alone (it grows slowly with the total weight), so it cannot be
+  // validated up front: read in bounded chunks, so that a count the stream cannot back fails before a large allocation
+  vector_centroid centroids(allocator);
+  for (uint32_t done = 0; done < num_centroids; ) {
+    const uint32_t chunk = std::min<uint32_t>(num_centroids - done, 1024);
+    centroids.resize(done + chunk, centroid(0, 0));
+    read(is, centroids.data() + done, chunk * sizeof(centroid));
+    if (!is.good()) throw std::runtime_error("error reading from std::istream");
+    done += chunk;
+  }
   vector_t buffer(num_buffered, 0, allocator);
   if (num_buffered > 0) read(is, buffer.data(), num_buffered * sizeof(T));
   if (!is.good()) throw std::runtime_error("error reading from std::istream");
@@ -634,16 +642,18 @@ buffer_(std::move(buffer))
   buffer_.reserve(centroids_capacity_ * BUFFER_MULTIPLIER);
 }
 
-// the digest never holds more than centroids_capacity_ centroids and BUFFER_MULTIPLIER times as many buffered values
-// (see the constructor and update()), so larger counts cannot come from a valid image
+// the buffer never holds more than BUFFER_MULTIPLIER * centroids_capacity_ values (see update()), so a larger count
+// cannot come from a valid image; the number of centroids is NOT bounded by centroids_capacity_ (that is only the
+// reserved space: merged digests of large total weight exceed it), so it is not validated here
 template<typename T, typename A>
 void tdigest<T, A>::check_sizes(uint16_t k, uint32_t num_centroids, uint32_t num_buffered) {
   if (k < 10) throw std::invalid_argument("k must be at least 10");
   const size_t fudge = k < 30 ? 30 : 10;
   const size_t centroids_capacity = 2 * static_cast<size_t>(k) + fudge;
-  if (num_centroids > centroids_capacity || num_buffered > centroids_capacity * BUFFER_MULTIPLIER) {
-    throw std::invalid_argument("Possible corruption: " + std::to_string(num_centroids) + " centroids and "
-      + std::to_string(num_buffered) + " buffered values exceed the capacity for k=" + std::to_string(k));
+  unused(num_centroids);
+  if (num_buffered > centroids_capacity * BUFFER_MULTIPLIER) {
+    throw std::invalid_argument("Possible corruption: " + std::to_string(num_buffered)
+      + " buffered values exceed the capacity for k=" + std::to_string(k));
   }
 }
 
